@@ -12,18 +12,24 @@ OUTSIDE = ["more than 5 pages / 2 prefixes / 3 link submissions after the templa
 
 # one webentity with two prefixes (pool[0][:3] and pool[3][:3]); pages 0,1,2,4 under the first, 3 under the second
 TPL = [["page", 0, False], ["page", 1, False], ["page", 2, False], ["page", 3, False], ["page", 4, False], ["we", [[0, 3], [3, 3]]]]
+# the same with a third prefix that holds no page at all (pool[5], a host-only LRU) between the two
+# (a concrete host-only LRU that is never a page)
+POOL6 = POOL5 + [{"special": "empty.example"}]
+TPL3 = [["page", 0, False], ["page", 1, False], ["page", 2, False], ["page", 3, False], ["page", 4, False], ["we", [[0, 3], [5, 2], [3, 3]]]]
 
-
-POOL6 = POOL5 + [{"hosts": 2}]
 
 
 def levels(tier):
     if tier == "quick":
         return [
             {"name": "subset", "n": 0, "prelude": TPL, "subset": 2, "alphabet": ["links"], "defaults": ["never"], "pool": POOL5, "ks": [1, 2]},
+            {"name": "empty-prefix", "n": 0, "prelude": TPL3, "subset": 2, "alphabet": ["links"], "defaults": ["never"], "pool": POOL6, "ks": [1, 2],
+             "orders": 3},
         ]
     return [
         {"name": "subset", "n": 0, "prelude": TPL, "subset": 3, "alphabet": ["links"], "defaults": ["never"], "pool": POOL5, "ks": [1, 2, 3, 5]},
+        {"name": "empty-prefix", "n": 0, "prelude": TPL3, "subset": 3, "alphabet": ["links"], "defaults": ["never"], "pool": POOL6, "ks": [1, 2, 3],
+         "orders": 6},
         {"name": "subset-n1", "n": 1, "prelude": TPL, "subset": 2, "alphabet": ["links", "we", "addprefix"], "links_batch": 1, "defaults": ["never"], "pool": POOL5, "ks": [1, 2]},
         {"name": "tpl-n2", "n": 2, "prelude": TPL, "alphabet": ["links", "we"], "links_batch": 2, "defaults": ["never"], "pool": POOL5, "ks": [1, 2, 3]},
         {"name": "tpl-n3", "n": 3, "prelude": TPL, "alphabet": ["links"], "links_batch": 1, "defaults": ["never"], "pool": POOL5, "ks": [1, 2]},
@@ -62,7 +68,10 @@ def harness(E):
     prefix_lrus = list(prefix_lrus)
     if len(prefix_lrus) > 1:
         E.reach("two-prefixes")
-        if E.flag("reverse"):
+        if P.get("orders") and len(prefix_lrus) == 3:
+            perms = [[0, 1, 2], [2, 1, 0], [1, 0, 2], [0, 2, 1], [1, 2, 0], [2, 0, 1]][:P["orders"]]
+            prefix_lrus = [prefix_lrus[j] for j in perms[E.choose("order", len(perms))]]
+        elif E.flag("reverse"):
             prefix_lrus.reverse()
     sw = E.choose("switches", 3)
     inte, outb = [(True, False), (False, True), (True, True)][sw]
